@@ -310,7 +310,7 @@ impl InfixOpManager {
         if config.2 == InfixOpAssociativity::LEFT {
             r_bp = l_bp.saturating_add(1);
         } else if config.2 == InfixOpAssociativity::RIGHT {
-            r_bp = l_bp - 1;
+            r_bp = l_bp.saturating_sub(1);
         }
         (l_bp, r_bp)
     }
